@@ -133,11 +133,11 @@ def recursive_text(default):
     return """FR%s DEFINITIONS %s TAGS ::= BEGIN
   Tree ::= CHOICE { leaf INTEGER, node SEQUENCE { l Tree, r Tree OPTIONAL }, many %sSEQUENCE OF Tree, alt Alt }
   Alt ::= CHOICE { s IA5String, b BOOLEAN, back %sTree, pair %sSEQUENCE { x Alt OPTIONAL, y INTEGER (0..7) } }
-  Lnk ::= SEQUENCE { v INTEGER (0..255), next Lnk OPTIONAL, t Tree OPTIONAL }
+  Lnk ::= SEQUENCE { v INTEGER (0..255), next Lnk OPTIONAL, t %sTree OPTIONAL }
   Mut1 ::= CHOICE { a NULL, m %sMut2 }
   Mut2 ::= CHOICE { b BOOLEAN, m %sMut1, q %sSEQUENCE OF Mut1 }
 END
-""" % (default[0], default, tg("[0]"), tg("[9]"), tg("[10]"), tg("[1]"), tg("[2]"), tg("[3]"))
+""" % (default[0], default, tg("[0]"), tg("[9]"), tg("[10]"), tg("[5]"), tg("[1]"), tg("[2]"), tg("[3]"))
 
 
 def xer(s):
@@ -152,19 +152,19 @@ def recursive_values():
             ("Tree", T("<node><l>%s</l></node>" % leaf(1))),
             ("Tree", T("<node><l><alt><s>hi</s></alt></l><r>%s</r></node>" % leaf(7))),
             ("Tree", T("<many></many>")),
-            ("Tree", T("<many><Tree>%s</Tree><Tree><alt><b><true/></b></alt></Tree><Tree><many><Tree>%s</Tree></many></Tree></many>" % (leaf(3), leaf(4)))),
+            ("Tree", T("<many>%s<alt><b><true/></b></alt><many>%s</many></many>" % (leaf(3), leaf(4)))),   # an element that is a CHOICE has no wrapper of its own in XER
             ("Tree", T("<alt><s></s></alt>")), ("Tree", T("<alt><b><false/></b></alt>")),
             ("Tree", T("<alt><back>%s</back></alt>" % leaf(9))),
             ("Tree", T("<alt><back><alt><back><alt><s>deep</s></alt></back></alt></back></alt>")),
             ("Tree", T("<alt><pair><y>7</y></pair></alt>")),
             ("Tree", T("<alt><pair><x><pair><x><b><true/></b></x><y>0</y></pair></x><y>3</y></pair></alt>")),
-            ("Tree", T("<node><l><node><l>%s</l><r><alt><pair><x><s>q</s></x><y>1</y></pair></alt></r></node></l><r><many><Tree><alt><back>%s</back></alt></Tree></many></r></node>" % (leaf(0), leaf(2)))),
+            ("Tree", T("<node><l><node><l>%s</l><r><alt><pair><x><s>q</s></x><y>1</y></pair></alt></r></node></l><r><many><alt><back>%s</back></alt></many></r></node>" % (leaf(0), leaf(2)))),
             ("Alt", "<Alt><s>abc</s></Alt>"), ("Alt", "<Alt><back>%s</back></Alt>" % leaf(1)), ("Alt", "<Alt><pair><y>5</y></pair></Alt>"),
             ("Lnk", "<Lnk><v>0</v></Lnk>"), ("Lnk", "<Lnk><v>255</v><next><v>1</v><next><v>2</v><t>%s</t></next></next></Lnk>" % leaf(6)),
             ("Lnk", "<Lnk><v>7</v><t><alt><back><many></many></back></alt></t></Lnk>"),
             ("Mut1", "<Mut1><a></a></Mut1>"), ("Mut1", "<Mut1><m><b><true/></b></m></Mut1>"),
             ("Mut1", "<Mut1><m><m><m><m><a></a></m></m></m></m></Mut1>"),
-            ("Mut2", "<Mut2><q></q></Mut2>"), ("Mut2", "<Mut2><q><Mut1><a></a></Mut1><Mut1><m><q><Mut1><m><b><false/></b></m></Mut1></q></m></Mut1></q></Mut2>")]
+            ("Mut2", "<Mut2><q></q></Mut2>"), ("Mut2", "<Mut2><q><a></a><m><q><m><b><false/></b></m></q></m></q></Mut2>")]
     return vals
 
 
@@ -197,7 +197,9 @@ def noconstr_defs(default):
     d.append(("T0", SETOF(INT((0, 7, False)), (0, 3, False))))
     # the same constraints written directly on members / alternatives / elements (emit_member_table)
     signed = [c for c in NC_INT if not (c[0] is not None and c[0] >= 0 and (c[1] is None or c[1] >= 2**31))]
-    d.append(("SM", SEQ([("m%d" % i, INT(c, C(i)), i % 3 == 2) for i, c in enumerate(NC_INT)])))
+    semi = [c for c in NC_INT if c[0] not in (None, 0) and c[1] is None and not c[2]]       # UPER cannot encode these at all (C02's finding): kept apart
+    d.append(("SM", SEQ([("m%d" % i, INT(c, C(i)), i % 3 == 2) for i, c in enumerate(NC_INT) if c not in semi])))
+    d.append(("SN", SEQ([("n%d" % i, INT(c, C(i)), i % 2 == 1) for i, c in enumerate(semi)])))
     d.append(("SO", SEQ([("o%d" % i, OCT(c, C(i)), i % 2 == 1) for i, c in enumerate(NC_SIZE)])))
     d.append(("CM", CH([("a%d" % i, INT(c, C(i))) for i, c in enumerate(signed)] + [("b%d" % i, OCT(c, C(40 + i))) for i, c in enumerate(NC_SIZE[:5])])))
     d.append(("QE", SEQOF(INT((0, 7, False)))))
@@ -208,7 +210,7 @@ def noconstr_defs(default):
     d.append(("CR", CH([("c0", REF("I0", tag=C(0))), ("c17", REF("I17", tag=C(1))), ("co", REF("O3", tag=C(2))), ("cs", REF("SM", tag=C(3)))])))
     if default == "AUTOMATIC":
         # the AUTOMATIC twin keeps only what the tagging default touches: the structured types and what they refer to
-        keep = {"SM", "SO", "CM", "QG", "SR", "CR", "I0", "I3", "I8", "I13", "I17", "O1", "O3", "Q0"}
+        keep = {"SM", "SN", "SO", "CM", "QG", "SR", "CR", "I0", "I3", "I8", "I13", "I17", "O1", "O3", "Q0"}
         d = [(n, strip_member_tags(t)) for n, t in d if n in keep]
     return d
 
@@ -262,9 +264,9 @@ def noconstr_wide_module():
             ("Q3", s(0x30, b"")), ("Q3", s(0x30, der_int(0) + der_int(7) + der_int(3))), ("QR", s(0x30, der_int(5))), ("QR", s(0x30, der_int(0) + der_int(7)))]
     for tn, vs in (("IU", (0, 7, 10, 12)), ("II", (10, 15, 20)), ("IE", (0, 7, 10, 12, 9, 300, -1)), ("IM", (0, -1, 128, 2**31, -2**63, 2**63 - 1)),
                    ("IN", (0, 1, 7)), ("I07", (0, 5, 7)), ("IR", (1, 2, 3)), ("IA", (0, 7))):
-        vals += [(tn, der_int(v)) for v in vs]
+        vals += [(tn, der_int(v).hex()) for v in vs]
     for tn, vs in (("En", (0, 1, 2, 3)), ("EnR", (0, 1))):
-        vals += [(tn, der_int(v, 0x0a)) for v in vs]
+        vals += [(tn, der_int(v, 0x0a).hex()) for v in vs]
     return {"name": "FNW", "default": "AUTOMATIC", "defs": [(n, None) for n in names], "trees": {}, "text": NCW_TEXT, "wide": True, "family": True,
             "der_values": vals, "rfill": 6, "rfill_types": ["Rec", "Pick", "Q3", "QR"]}
 
@@ -621,6 +623,23 @@ def model_cases(model_exe, mods, rng, nrandom, run_lines):
             seen.add(key)
             out.append(c)
     return out
+
+
+ABOUT = {"FI": ["-findirect-choice"], "FR": ["-findirect-choice"],
+         "FNI": ["-fno-constraints", "-no-gen-OER", "-no-gen-PER"], "FNA": ["-fno-constraints"], "FNW": ["-fno-constraints", "-no-gen-OER"],
+         "FWT": ["-fwide-types"], "FCN": ["-fincludes-quoted", "-fno-include-deps", "no -fcompound-names"],
+         "FDP": ["-fincludes-quoted", "-fno-include-deps", "no -fcompound-names"]}
+
+
+def about(m):
+    """the options a family module is about"""
+    return ABOUT.get(m["name"]) or ABOUT[m["name"][:2]]
+
+
+def relevant(m, opts):
+    """quick tier: a family module is built under the option sets that contain one of the options it is about"""
+    a = about(m)
+    return any(o in opts for o in a) or ("no -fcompound-names" in a and "-fcompound-names" not in opts)
 
 
 def model_family_modules():
